@@ -104,6 +104,14 @@ impl Display for Token {
     }
 }
 
+#[cfg(kani)]
+impl Tokenizer {
+    /// verification hook: (raw.start, raw.end, data.start, data.end) of the current token
+    pub fn verif_spans(&self) -> (usize, usize, usize, usize) {
+        (self.raw.start, self.raw.end, self.data.start, self.data.end)
+    }
+}
+
 impl Tokenizer {
     pub fn new(reader: Vec<u8>) -> Tokenizer {
         Tokenizer::new_fragment(reader, "".to_string())
